@@ -233,34 +233,55 @@ def trapGo (acc : α) : List α → List α → List α
 /-- the `z_integral` row with the value 0 put in front (`gamma_k[:, 0] = 0`, `crpz[:, :, 1:] * z_integral`) -/
 def trapCum (ys zs : List α) : List α := N(0) :: trapGo N(0) ys zs
 
-/-- `exp(exponent)` on one interval of the grid (relative positions `zs`, launch powers `p0` already multiplied by the
+/-- `alphaz = outer(alpha, z_interval)` -/
+def alphazM (alpha zs : List α) : List (List α) := alpha.map (fun a => zs.map (fun z => a * z))
+
+/-- `expz = exp(- alphaz)` -/
+def expzM (alpha zs : List α) : List (List α) := (alphazM alpha zs).map (fun r => r.map (fun x => Transc.exp (-x)))
+
+/-- `eff_length = 1 / outer(alpha, ones) * (1 - expz)` -/
+def effLenM (alpha zs : List α) : List (List α) :=
+  (alpha.zip (expzM alpha zs)).map (fun ae => ae.2.map (fun e => N(1) / ae.1 * (N(1) - e)))
+
+/-- `crpz[a][b] = cr[a][b] * p0[b]` (constant along z) -/
+def crpM (cr : List (List α)) (p0 : List α) : List (List α) := cr.map (fun row => vmul row p0)
+
+/-- the exponent without Raman: `- alphaz` -/
+def expo0 (alpha zs : List α) : List (List α) := (alphazM alpha zs).map (fun r => r.map (fun x => -x))
+
+/-- first-order Raman term `gamma1 = sum(crpz * eff_length, 1)` -/
+def gamma1 (alpha : List α) (cr : List (List α)) (p0 zs : List α) : List (List α) :=
+  crTimes zs.length (crpM cr p0) (effLenM alpha zs)
+
+/-- row-wise sum of two matrices -/
+def madd (x y : List (List α)) : List (List α) := (x.zip y).map (fun r => vadd r.1 r.2)
+
+/-- `exponent` on one interval of the grid (relative positions `zs`, launch powers `p0` already multiplied by the
 lumped loss at the interval start), for `order ∈ {0,…,4}` (the code rejects more than 4) -/
 def expoInterval (order : Nat) (alpha : List α) (cr : List (List α)) (p0 : List α) (zs : List α) : List (List α) :=
   let T := zs.length
-  let alphaz := alpha.map (fun a => zs.map (fun z => a * z))
-  let expz := alphaz.map (fun r => r.map (fun x => Transc.exp (-x)))
-  let effLen := (alpha.zip expz).map (fun ae => ae.2.map (fun e => N(1) / ae.1 * (N(1) - e)))
-  let crp := cr.map (fun row => vmul row p0)
-  let e0 := alphaz.map (fun r => r.map (fun x => -x))
+  let expz := expzM alpha zs
+  let crp := crpM cr p0
+  let e0 := expo0 alpha zs
   if order = 0 then e0 else
-  let g1 := crTimes T crp effLen
-  let e1 := (e0.zip g1).map (fun x => vadd x.1 x.2)
+  let g1 := gamma1 alpha cr p0 zs
+  let e1 := madd e0 g1
   if order = 1 then e1 else
   let int2 := (expz.zip g1).map (fun x => trapCum (vmul x.1 x.2) zs)
   let g2 := crTimes T crp int2
-  let e2 := (e1.zip g2).map (fun x => vadd x.1 x.2)
+  let e2 := madd e1 g2
   if order = 2 then e2 else
   let half : α := N(1) / N(2)
   let int3 := (expz.zip (g1.zip g2)).map (fun x =>
     trapCum (vmul x.1 (vadd x.2.2 (vscale half (vmul x.2.1 x.2.1)))) zs)
   let g3 := crTimes T crp int3
-  let e3 := (e2.zip g3).map (fun x => vadd x.1 x.2)
+  let e3 := madd e2 g3
   if order = 3 then e3 else
   let sixth : α := N(1) / N(6)
   let int4 := (expz.zip (g1.zip (g2.zip g3))).map (fun x =>
     trapCum (vmul x.1 (vadd (vadd x.2.2.2 (vmul x.2.1 x.2.2.1)) (vscale sixth (vmul x.2.1 (vmul x.2.1 x.2.1))))) zs)
   let g4 := crTimes T crp int4
-  (e3.zip g4).map (fun x => vadd x.1 x.2)
+  madd e3 g4
 
 /-- `power_interval = outer(p0, ones) * exp(exponent)` -/
 def powerInterval (order : Nat) (alpha : List α) (cr : List (List α)) (p0 : List α) (zs : List α) : List (List α) :=
